@@ -39,10 +39,10 @@ type c01Root struct {
 	// untagged pointers to option-less structs, after options: stay as they are
 	BareNil *c01Bare
 	BareSet *c01Bare
-	NoFlag   string   `no-flag:"yes" long:"nf"`
-	G        c01Grp   `group:"Grp" namespace:"g"`
-	P        c01Plain `group:"Plain"`
-	Cmd      c01Cmd   `command:"cmd" subcommands-optional:"y"`
+	NoFlag  string   `no-flag:"yes" long:"nf"`
+	G       c01Grp   `group:"Grp" namespace:"g"`
+	P       c01Plain `group:"Plain"`
+	Cmd     c01Cmd   `command:"cmd" subcommands-optional:"y"`
 }
 
 type c01Opt struct {
